@@ -21,8 +21,9 @@ class IterError(Exception):
 class Tasks:
     """Instrumented input iterable: counts items taken, detects re-entrant / concurrent next()."""
 
-    def __init__(self, sim, call_no, n, fn, fail_at=None, log=None, has_len=False):
+    def __init__(self, sim, call_no, n, fn, fail_at=None, log=None, has_len=False, slow_at=None, slow_until=None):
         self.sim, self.call_no, self.n, self.fn, self.fail_at = sim, call_no, n, fn, fail_at
+        self.slow_at, self.slow_until = slow_at, slow_until      # a lazy producer that is slow at one item
         self.i = 0
         self.busy = False
         self.log = log if log is not None else []
@@ -41,6 +42,8 @@ class Tasks:
         self.busy = True
         try:
             self.sim.sp("next")
+            if self.slow_at is not None and self.i == self.slow_at and self.slow_until is not None:
+                self.sim.other_thread_wait(self.slow_until)
             if self.fail_at is not None and self.i == self.fail_at:
                 self.log.append(("iter-raise", self.call_no, self.i))
                 raise IterError("iterator failed at %d" % self.i)
@@ -266,7 +269,8 @@ def run(cfg, sched):
                 for call_no, c in enumerate(cfg["calls"]):
                     rec = {"call": call_no, "result": None, "exc": None, "taken_before": len(out.iter_log)}
                     tasks = Tasks(sim, call_no, c["n_tasks"], task, c.get("iter_fail_at"), out.iter_log,
-                                  has_len=c.get("has_len", False))
+                                  has_len=c.get("has_len", False), slow_at=c.get("slow_at"),
+                                  slow_until=(lambda: bool(p._aborting)) if c.get("slow_at") is not None else None)
                     rec["tasks"] = tasks
                     try:
                         if cfg.get("return_as", "list") == "list":
